@@ -266,7 +266,7 @@ func LoadPackage(dir string) (*PackageInfo, error) {
 
 		versionInfo, err := loadPackageVersion(vdir)
 		if err != nil {
-			return packageInfo, err
+			return packageInfo, locatedIn(err, packageInfo.FilePath)
 		}
 
 		packageInfo.Versions[i].Package = versionInfo
@@ -327,6 +327,16 @@ func readPackageInfo(directory string) (*PackageInfo, error) {
 	return packageInfo, packageInfo.validate()
 }
 
+// locatedIn attributes an error that names no file (a referenced package directory that does not
+// exist or has no package file) to the package file that refers to it.
+func locatedIn(err error, referringFile string) error {
+	var validationError validation.ValidationError
+	if errors.As(err, &validationError) {
+		return err
+	}
+	return validation.NewValidationError(err, referringFile)
+}
+
 // Recursively collects all packages starting with parentDir, building an Import tree of *PackageInfo
 // alreadyCollected is used to check for namespace conflicts (e.g. same namespace but different package directory)
 // importChain is used to check for import cycles
@@ -375,7 +385,7 @@ func collectPackages(parentDir string, alreadyCollected map[string]*PackageInfo,
 		importChain[parentInfo.Namespace] = true
 		childInfo, err := collectPackages(dir, alreadyCollected, importChain, depthRemaining-1)
 		if err != nil {
-			return parentInfo, err
+			return parentInfo, locatedIn(err, parentInfo.FilePath)
 		}
 		importChain[parentInfo.Namespace] = false
 
